@@ -94,10 +94,14 @@ class _AsyncTimeout[**Args, Result]:
             if future.done():
                 return  # ignore if already finished
 
+            if task.cancelled():
+                future.cancel()  # propagate cancellation of the function to the caller
+                return
+
             try:
                 future.set_result(task.result())
 
-            except Exception as exc:
+            except BaseException as exc:
                 future.set_exception(exc)
 
         task.add_done_callback(on_completion)
